@@ -140,7 +140,19 @@ def run(repo, rep, tier):
     skip = [n for n in walk_no_nested(pt) if isinstance(n, ast.If) and unparse(n.test) == 'host_key_type in parsed_host_key_types' and isinstance(n.body[-1], ast.Continue)]
     rep.check('landing', 'already parsed types are skipped', len(skip) == 1, pt, 'skip of parsed types changed')
     resets = [n for n in walk_no_nested(pt) if isinstance(n, ast.Assign) and unparse(n.targets[0]) in ('key_fail_comments', 'key_warn_comments') and unparse(n.value) == '[]']
-    ok = len(resets) == 2 and all(any(k == 'for' and unparse(t) == 'host_key_types' for t, p, k in path_condition(r)) for r in resets)
+    # both lists are re-created unconditionally in the body of the loop over key types (whatever it iterates), before any use in that iteration
+    type_loops = [n for n in walk_no_nested(pt) if isinstance(n, ast.For) and unparse(n.target) == 'host_key_type']
+    ok = len(resets) == 2 and len(type_loops) == 1
+    if ok:
+        body = type_loops[0].body
+        for r in resets:
+            if r not in body:
+                ok = False
+                continue
+            nm = unparse(r.targets[0])
+            for earlier in body[:body.index(r)]:
+                if any(isinstance(x, ast.Name) and x.id == nm for x in ast.walk(earlier)):
+                    ok = False
     rep.check('landing', 'comment lists are fresh for every key type', ok, resets[0] if resets else pt, 'comment lists are not reset per type: notes of one key type would be attached to the next')
 
     # ---- rule 3: record-field agreement -------------------------------------------------------------------------------------
